@@ -196,3 +196,34 @@ package gzip
 //@   requires s != nil
 //@   modifies MV:map[string]struct{}, MD:map[string]struct{}
 //@   ensures has(s, value)
+
+//@ unit request_filters frames=on props=C18 nilchecks=on verify_pure=on filter=`gzip\.Set\)\.(Contains|ContainsFunc)$|gzip\.ExtFilter\)\.ShouldCompress$|gzip\.LengthFilter\)\.ShouldCompress$|gzip\.PathFilter\)\.ShouldCompress$|gzip\.PathFilter\)\.ShouldCompress\$1$`
+//@ // C18 "request filters (extension, excluded paths)", "response filters (minimum length) deciding at header time": each
+//@ // filter's answer as a function of what it is configured with and what it looks at
+//@ extern path.Ext
+//@   pure
+//@ extern strconv.ParseInt
+//@   pure
+//@ extern invoke:(net/http.ResponseWriter).Header
+//@   pure
+//@ extern (net/http.Header).Get
+//@   pure reads MV:net/http.Header
+//@ extern (github.com/tmpim/casket/caskethttp/httpserver.Path).Matches
+//@   pure
+//@ func (Set).Contains
+//@   pure
+//@   ensures [membership] result == has(s, value)
+//@ func (Set).ContainsFunc
+//@   ensures [a_true_answer_has_a_witness_in_the_set] result ==> existsT(k, string, has(s, k) && f(k))
+//@ func (ExtFilter).ShouldCompress
+//@   requires r != nil && r.URL != nil
+//@   ensures [extension_listed_or_wildcard] result == (has(e.Exts, "*") || has(e.Exts, path.Ext(r.URL.Path)))
+//@ define cl() string = w.Header().Get("Content-Length")
+//@ func (LengthFilter).ShouldCompress
+//@   requires w != nil
+//@   ensures [declared_length_reaches_the_minimum] result == (ret(1, strconv.ParseInt(cl(), 10, 64)) == nil && ret(0, strconv.ParseInt(cl(), 10, 64)) != 0 && l != 0 && int64(l) <= ret(0, strconv.ParseInt(cl(), 10, 64)))
+//@ func (PathFilter).ShouldCompress$1
+//@   requires r != nil && r.URL != nil
+//@   ensures [ignored_path_test_is_the_path_matcher] result == httpserver.Path(r.URL.Path).Matches(value)
+//@ func (PathFilter).ShouldCompress
+//@   requires r != nil && r.URL != nil
